@@ -88,7 +88,7 @@ mkrsa(const json_t *jwk)
         break;
     }
 
-    if (!check_public_exponent(bn)) {
+    if (!bn || !check_public_exponent(bn)) {
         return NULL;
     }
 
